@@ -231,7 +231,7 @@ func Scenarios(tier string) []run.Scenario {
 					}
 					p := Params{Actors: a, PreInit: pre, Slow: slow, Preempt: -1}
 					out = append(out, run.Scenario{Name: p.Name(), Body: body(p), Check: check, Sig: run.NormSig, Summary: summary,
-						Opts: vrt.Options{PreemptBound: -1, FaultBound: -1, OrderBound: -1, Prune: true}})
+						Opts: vrt.Options{PreemptBound: -1, FaultBound: -1, OrderBound: -1, Prune: true, Race: true}})
 				}
 			}
 		}
